@@ -161,7 +161,8 @@ func getFloatToStringFunction() schema.CallableFunction {
 	funcSchema, err := schema.NewCallableFunction(
 		"floatToString",
 		[]schema.Type{schema.NewFloatSchema(nil, nil, nil)},
-		schema.NewStringSchema(nil, nil, regexp.MustCompile(`^\d+\.\d*$`)),
+		// Optional sign, integer part, optional fraction; or one of the non-finite values.
+		schema.NewStringSchema(nil, nil, regexp.MustCompile(`^(?:-?\d+(?:\.\d*)?|NaN|[+-]Inf)$`)),
 		false,
 		schema.NewDisplayValue(
 			schema.PointerTo("floatToString"),
@@ -196,10 +197,12 @@ func getFloatToFormattedStringFunction() schema.CallableFunction {
 		// 'f' format: -ddd.dddd
 		// 'x' format: -0xd.ddddp±ddd
 		// 'X' format: -0Xd.ddddP±ddd
+		// Non-finite values are formatted as NaN, +Inf and -Inf regardless of the format.
+		// The hexadecimal formats have hexadecimal digits in the fraction.
 		schema.NewStringSchema(
 			nil,
 			nil,
-			regexp.MustCompile(`^-?(?:0[xX])?\d+(?:\.\d*)?(?:[pPeE][-+]\d{2,3})?$`)),
+			regexp.MustCompile(`^(?:-?(?:0[xX])?[0-9a-fA-F]+(?:\.[0-9a-fA-F]*)?(?:[pPeE][-+]\d{1,4})?|NaN|[+-]Inf)$`)),
 		false,
 		schema.NewDisplayValue(
 			schema.PointerTo("floatToFormattedString"),
